@@ -46,6 +46,11 @@ def replay(rec):
     cls = rec["signature"]["cls"]
     if cls in ("Sphere", "Ellipsoid"):
         return curved_eval.replay_inside(rec)
+    if "d2" in rec["detail"].get("case", {}).get("rec", {}):
+        from .. import sphero_eval
+        from ..pool import _init
+        _init()
+        return [f"{s['cls']}.{s['obs']}: {s['msg']}" for s, _ in sphero_eval.eval_round_inside(rec["detail"]["case"])[0]]
     if rec["detail"].get("case", {}).get("rec", {}).get("k") == "spherobox":
         from .. import sphero_eval
         from ..pool import _init
